@@ -34,6 +34,9 @@ NIsNaN(a)   == CHOOSE x \in BOOLEAN : TRUE
 NCmp(a, b)  == CHOOSE x \in {-1, 0, 1, 2, 3} : TRUE
 NClose(a, b, rel) == CHOOSE x \in BOOLEAN : TRUE
 NSumSeq(q)  == CHOOSE x \in STRING : TRUE      \* left-to-right sum of a sequence of numbers
+NMeanSeq(q) == CHOOSE x \in STRING : TRUE      \* arithmetic mean of a non-empty sequence
+NPopStdSeq(q) == CHOOSE x \in STRING : TRUE    \* population standard deviation of a non-empty sequence
+NSign(a)    == CHOOSE x \in {-1, 0, 1, 2} : TRUE \* exact sign; 2 for NaN
 
 (* outcome sets: which truth values of the comparison must a specification admit *)
 GtSet(a, b) == LET c == NCmp(a, b) IN IF c = 1 THEN {TRUE} ELSE IF c = 2 THEN {TRUE, FALSE} ELSE {FALSE}
